@@ -1,5 +1,6 @@
 #!/bin/bash
 # usage: tools/cells.sh <seeded-id> <prop>...  — applies a seeded change, runs the quick checks, prints verdict + first difference, reverts
+export VERIF_EVIDENCE_DIR=/verif/work/evidence-scratch   # keep the committed evidence (unchanged tree, seed 1) intact
 id="$1"; shift
 cd /verif
 git -C /repo apply "/verif/seeded/$id/patch.diff" || exit 9
